@@ -419,6 +419,49 @@ def solution_roundtrips(ctx, stop_first=False):
     return first
 
 
+def main_module_callables(ctx):
+    """callables defined at the top level of the running script (`__main__`), as in a user's script or notebook cell: what is
+    stored with the solution is the function as it was when the run was made, whatever the name is bound to later"""
+    import __main__
+
+    first = None
+    src1 = ("import numpy as np\n"
+            "def c14_cur(t):\n    return {'source': 2.0 + 0.5 * t, 'drain': -(2.0 + 0.5 * t)}\n"
+            "def c14_eps(r):\n    return 1.0 - 0.2 * float(r[0] > 0)\n"
+            "def c14_vec(x, y, z, *, t, B=0.3):\n    s = min(1.0, 20.0 * t)\n    return np.stack([-s * B * y / 2, s * B * x / 2, np.zeros_like(x)], axis=1)\n")
+    src2 = src1.replace("2.0 + 0.5 * t", "5.0").replace("0.2 * float", "0.6 * float").replace("20.0 * t", "1.0 + 0 * t")
+    exec(src1, __main__.__dict__)
+    dev = zoo.make_device("bar", ctx.rng, max_edge_length=1.0)
+    path = os.path.join(str(ctx.work), "main_callables.h5")
+    A = Parameter(__main__.c14_vec, B=0.3, time_dependent=True)
+    sol = tdgl.solve(dev, tdgl.SolverOptions(solve_time=0.05, dt_init=5e-3, adaptive=False, save_every=5, output_file=path, progress_interval=10**9),
+                     applied_vector_potential=A, terminal_currents=__main__.c14_cur, disorder_epsilon=__main__.c14_eps)
+    pts = (np.array([0.3, -0.4]), np.array([0.2, 0.5]), np.array([0.1, 0.1]))
+    want = dict(cur=__main__.c14_cur(0.03), eps=__main__.c14_eps((0.5, 0.1)), A=np.asarray(A(*pts, t=0.02)))
+    p2 = path.replace(".h5", "_copy.h5")
+    sol.to_hdf5(p2)
+    exec(src2, __main__.__dict__)  # "the next run of the script": the same names, other functions
+    try:
+        for label, pth in (("output file", sol.path), ("saved copy", p2)):
+            back = tdgl.Solution.from_hdf5(pth)
+            got = dict(cur=back.terminal_currents(0.03), eps=back.disorder_epsilon((0.5, 0.1)), A=np.asarray(back.applied_vector_potential(*pts, t=0.02)))
+            bad = [k for k in want if not (np.array_equal(want[k], got[k]) if k == "A" else want[k] == got[k])]
+            ctx.case(("main-module-callables", label), nontrivial=True)
+            ctx.count("reloads_after_the_script_redefined_its_functions")
+            if bad:
+                rp = dict(file=label, differ=bad, saved=str({k: want[k] for k in bad if k != "A"}), reloaded=str({k: got[k] for k in bad if k != "A"}))
+                ctx.fail("reloaded-callable-follows-redefinition", f"{label}: after the script re-defined its top-level functions, the reloaded solution's {bad} evaluate like the NEW definitions, not like those of the saved run", rp)
+                first = first or dict(key="reloaded-callable-follows-redefinition", what=str(bad), **rp)
+    except Exception as e:  # noqa
+        rp = dict(error=f"{type(e).__name__}: {str(e)[:120]}")
+        ctx.fail("reloaded-callable-follows-redefinition", f"loading / evaluating the solution after its functions were re-defined raised {rp['error']}", rp)
+        first = first or dict(key="reloaded-callable-follows-redefinition", what=rp["error"], **rp)
+    finally:
+        for nm in ("c14_cur", "c14_eps", "c14_vec"):
+            __main__.__dict__.pop(nm, None)
+    return first
+
+
 def h5keys(g):
     return ",".join(sorted(list(g.attrs.keys()) + list(g.keys())))
 
@@ -483,13 +526,14 @@ def run(ctx):
     layer_roundtrips(ctx)
     device_roundtrips(ctx)
     solution_roundtrips(ctx)
+    main_module_callables(ctx)
     if os.environ.get("C14_NOMODEL") != "1":
         model_part(ctx)
 
 
 def search(ctx):
     ctx.rng = np.random.default_rng(ctx.seed + 4242)
-    return layer_roundtrips(ctx) or device_roundtrips(ctx) or solution_roundtrips(ctx, stop_first=True)
+    return layer_roundtrips(ctx) or device_roundtrips(ctx) or solution_roundtrips(ctx, stop_first=True) or main_module_callables(ctx)
 
 
 def replay(payload):
